@@ -1233,7 +1233,7 @@ class FunctionScope(Scope):
         rest_scope = {key: nodes for key, nodes in rest_scope.items() if nodes}
         with self.subscope() as dummy_subscope:
             pass
-        all_keys = set(rest_scope) | set(dummy_subscope)
+        all_keys = dict.fromkeys([*dummy_subscope, *rest_scope])
         new_scope = {
             key: [*dummy_subscope.get(key, []), *rest_scope.get(key, [])]
             for key in all_keys
@@ -1283,7 +1283,8 @@ class FunctionScope(Scope):
                 new_scopes.append(scope)
         if not new_scopes:
             return {LEAVES_SCOPE: []}
-        all_variables = set(chain.from_iterable(new_scopes))
+        # Use a dict rather than a set so that the order of variables is deterministic.
+        all_variables = dict.fromkeys(chain.from_iterable(new_scopes))
         return {
             varname: uniq_chain(
                 scope.get(varname, [_UNINITIALIZED]) for scope in new_scopes
